@@ -183,16 +183,41 @@ Inductive jnode (E : Type) :=
 | NFilterBlock (body : list E) (name : str) (const_arg : str).  (* FilterBlock(body=rv, filter=Filter(None, name, [Const(prefix)])) *)
 Arguments NPlain {E}. Arguments NFilter {E}. Arguments NFilterBlock {E}.
 
+(* LEGACY marker code (parser.py before design_notes/C19_marker_delimiter_fix.patch): token.value.endswith('*'), token.value[:-3] *)
 Definition token_is_marker (value : str) : bool :=
   match value with [] => false | _ => ends_with (fun c => c =? autoindent_marker_char) value end.
-Definition autoindent_prefix (value : str) : str := firstn (length value - autoindent_drop) value.   (* token.value[:-3] *)
+Definition autoindent_prefix (value : str) : str := firstn (length value - 3) value.
+
+(* DELIMITER-AWARE marker code: marker_start(token, starts) = the longest non-empty start string s of the environment such that
+   token.value.endswith(s + '*');  prefix = token.value[:-(len(s) + 1)] *)
+Definition ends_with_str (suf s : str) : bool :=
+  Nat.leb (length suf) (length s) && str_eqb (skipn (length s - length suf) s) suf.
+Fixpoint insert_by_len (x : str) (l : list str) : list str :=
+  match l with
+  | [] => [x]
+  | y :: r => if Nat.leb (length y) (length x) then x :: l else y :: insert_by_len x r
+  end.
+Definition sort_starts (l : list str) : list str := fold_right insert_by_len [] l.     (* sorted(.., key=len, reverse=True), stable *)
+Definition marker_start_of (starts : list str) (value : str) : option str :=
+  find (fun st => ends_with_str (st ++ [42]) value) (sort_starts (filter (fun st => match st with [] => false | _ => true end) starts)).
+
+(* what the parser decides for a begin token: Some prefix = auto-indent with that prefix *)
+Definition marker_m (aware : bool) (starts : list str) (value : str) : option str :=
+  if aware then
+    match marker_start_of starts value with
+    | Some st => Some (firstn (length value - S (length st)) value)
+    | None => None
+    end
+  else if token_is_marker value then Some (autoindent_prefix value) else None.
+(* ... as the code in /repo does it now (the flag is regenerated from parser.py) *)
+Definition code_marker : list str -> str -> option str := marker_m autoindent_delimiter_aware.
 
 (* variable_begin branch of subparse *)
-Definition subparse_variable {E} (value : str) (rv : E) : jnode E :=
-  if token_is_marker value then NFilter rv autoindent_filter_name (autoindent_prefix value) else NPlain rv.
+Definition subparse_variable {E} (mk : option str) (rv : E) : jnode E :=
+  match mk with Some p => NFilter rv autoindent_filter_name p | None => NPlain rv end.
 (* block_begin branch: rv is a node or a list of nodes (rv if isinstance(rv, list) else [rv]) *)
-Definition subparse_block {E} (value : str) (rv : list E) : list (jnode E) :=
-  if token_is_marker value then [NFilterBlock rv autoindent_filter_name (autoindent_prefix value)] else map NPlain rv.
+Definition subparse_block {E} (mk : option str) (rv : list E) : list (jnode E) :=
+  match mk with Some p => [NFilterBlock rv autoindent_filter_name p] | None => map NPlain rv end.
 
 (* rendering, given the rendering of the parsed nodes and the filter table *)
 Definition render_node {E} (ev : E -> str) (filters : str -> option (str -> str -> str)) (n : jnode E) : option str :=
